@@ -186,6 +186,38 @@ def scenario(ctx, p):
             "left_after": None if left_at is None else round(left_at - t_cut, 6), "T": T}
 
 
+def added_silent_voter(ctx, seed, n0=2):
+    """The leader of n0 voters adds a voter that was never part of the cluster and never answers (not started yet); the
+    add commits with the old members; then the leader loses every answering voter.  The new voter gets one
+    `leaderFallbackTimeout` of grace from the moment it is added - after that the leader has heard from nobody and
+    must step down."""
+    T = 1.0
+    names = ["n%d" % k for k in range(n0)]
+    s = simmod.Sim(ctx.repo, names, conf={"dynamicMembershipChange": True, "leaderFallbackTimeout": T}, seed=seed)
+    s.connect_all()
+    L = s.elect()
+    if L is None:
+        return {"viol": [], "cut": False}
+    s.run(6)
+    res = []
+    s._call(L, s.objs[L].addNodeToCluster, s.Node("zz"), callback=lambda r, e: res.append(("add", e)))
+    s.run(int(1.5 * T / 0.0625))                 # the add commits; the grace of the silent voter runs out
+    viol = []
+    if ("add", 0) not in res:
+        return {"viol": [], "cut": False, "callbacks": res}
+    for j in names:
+        if j != L:
+            s.disconnect(L, j)
+    steps = int(1.25 * T / 0.0625)
+    for _ in range(steps):
+        s.tick(L, 0.0625)
+    if s.objs[L]._isLeader():
+        viol.append({"signature": "fallback:leader-after-timeout-with-silent-added-voter",
+                     "what": "leader %s of %d voters added voter zz, which never answered (added %.2f s ago), then lost every other voter: "
+                             "%.2f s later (T=%.1f) it still reports itself leader" % (L, n0, 1.5 * T + steps * 0.0625, steps * 0.0625, T)})
+    return {"viol": viol, "cut": True, "callbacks": res}
+
+
 def membership_quorum(ctx, seed):
     """`hasQuorum` across membership changes: a voter is removed (its connection is closed by the transport), crashes,
     is added again while unreachable, then the remaining peers are lost: `hasQuorum` must be False everywhere (connected
@@ -254,6 +286,13 @@ def membership_quorum(ctx, seed):
         for i in live:
             s.tick(i, 0.0625)
     quorum("after the fallback timeout")
+    # the leader has heard from NOBODY for longer than the timeout: the voter added while unreachable never answered
+    # (its one-timeout grace is over), the other one is cut off
+    for i in live:
+        if s.objs[i]._isLeader():
+            viol.append({"signature": "fallback:leader-after-timeout-with-silent-added-voter",
+                         "what": "node %s still reports itself leader %.2f s after losing its last answering voter (T=1.0); voter %s was "
+                                 "added while unreachable and never answered" % (i, 25 * 0.0625, X)})
     ok = ("rem", 0) in res and ("add", 0) in res
     return {"viol": viol, "cut": ok, "callbacks": res, "stages": stages}
 
@@ -371,6 +410,18 @@ def run(ctx):
                 v["_k"] = v["signature"] + ":membership"
                 v["replay"] = {"membership_quorum": sd}
                 viols.append(v)
+    cov["added_silent_voter"] = 0
+    for sd in range(ctx.seed, ctx.seed + 2):
+        for n0 in (2, 3, 4):
+            r = added_silent_voter(ctx, sd, n0)
+            done += 1
+            if r["cut"]:
+                cov["added_silent_voter"] += 1
+            for v in r["viol"]:
+                if v["signature"] + ":silent" not in [x.get("_k") for x in viols]:
+                    v["_k"] = v["signature"] + ":silent"
+                    v["replay"] = {"added_silent_voter": [sd, n0]}
+                    viols.append(v)
     cov["api_calls_while_cut_off"] = 0
     for sd in range(ctx.seed, ctx.seed + 2):
         r = api_calls_are_no_sign_of_life(ctx, sd)
@@ -411,6 +462,10 @@ def replay(ctx, violation):
     if "stale_acks_after_reelection" in violation.get("replay", {}):
         r = stale_acks_after_reelection(ctx, violation["replay"]["stale_acks_after_reelection"])
         return {"violated": bool(r["viol"]), "violations": r["viol"][:5]}
+    if "added_silent_voter" in violation.get("replay", {}):
+        sd, n0 = violation["replay"]["added_silent_voter"]
+        r = added_silent_voter(ctx, sd, n0)
+        return {"violated": bool(r["viol"]), "violations": r["viol"][:3]}
     if "membership_quorum" in violation.get("replay", {}):
         r = membership_quorum(ctx, violation["replay"]["membership_quorum"])
         return {"violated": bool(r["viol"]), "violations": r["viol"][:5], "callbacks": r.get("callbacks")}
